@@ -195,8 +195,11 @@ def _generate(rng: random.Random, batch: dict) -> dict:
                                   for v in x], "how": how})
             elif r < 0.6:
                 ops.append({"op": "initialize"})
-            elif r < 0.7:
+            elif r < 0.68:
                 ops.append({"op": "get_differentials"})
+            elif r < 0.74:
+                ops.append({"op": "observe", "what": rng.choice(
+                    ["log", "log", "str", "bounds"])})
             else:
                 ops.append({"op": "surrogate_solve",
                             "warmup": rng.choice([1, 2]),
@@ -242,8 +245,11 @@ def _generate(rng: random.Random, batch: dict) -> dict:
             ops.append({"op": "set_model", "model": rng.choice(MODELS)})
         elif r < 0.82:
             ops.append({"op": "set_raw"})
-        elif r < 0.92:
+        elif r < 0.90:
             ops.append({"op": "get_differentials"})
+        elif r < 0.95:
+            ops.append({"op": "observe",
+                        "what": rng.choice(["log", "log", "str", "bounds"])})
         else:
             ops.append({"op": "model_objective",
                         "q": [fhex(_rf(rng, -1.0, 1.0))
@@ -276,6 +282,7 @@ def directed(tier: str) -> list:
             {"op": "evaluate", "x": _x([0.1, -0.2]), "how": "again"},
             {"op": "set_raw"},
             {"op": "evaluate", "x": _x([0.1, -0.2]), "how": "again"},
+            {"op": "observe", "what": "log"},
             {"op": "model_objective", "q": _x([0.1] * 6)},
             {"op": "get_differentials"},
             {"op": "set_model", "model": "njit_lin"},
@@ -811,6 +818,33 @@ def _execute_one(doc: dict, sysname: str) -> dict:
                         f"nothing was recorded since initialize()")
                     break
             res["events"].append(["get_differentials", bool(got is not None)])
+        elif kind == "observe":
+            # read-only parts of the Component/Objective API, called by
+            # moptipy whenever a process (also a nested one) writes its log:
+            # they must change neither later values nor the recorded data
+            try:
+                if op["what"] == "log":
+                    from moptipy.utils.logger import InMemoryLogger
+                    with InMemoryLogger() as lg:
+                        with lg.key_values("F") as kv:
+                            obj.log_parameters_to(kv)
+                        seen = len(lg.get_log())
+                elif op["what"] == "str":
+                    seen = len(str(obj)) + len(repr(obj))
+                else:
+                    seen = [obj.lower_bound(), obj.upper_bound(),
+                            obj.is_always_integer()]
+                    if seen != [0.0, 1e200, False] and seen != [0.0, 1e100,
+                                                                False]:
+                        core.bump(res["probes"], "other_bounds")
+                    seen = 3
+            except Exception as exc:  # noqa: BLE001
+                core.violation(res, "observer-raised",
+                               f"op {idx}: {op['what']} raised "
+                               f"{type(exc).__name__}: {exc}")
+                break
+            core.bump(res["probes"], "observe:" + op["what"] + ":" + mode)
+            res["events"].append(["observe", op["what"], bool(seen)])
         elif kind == "surrogate_solve":
             from moptipy.api.execution import Execution
             from moptipyapps.dynamic_control.surrogate_optimizer import (
